@@ -115,11 +115,12 @@ func VerifHarness_ReloadConvergesOnFinalContent() {
 		return &zzWatcher{w}, nil
 	}}
 	watching := true
-	zz.Go(func() { runWatchLoop(ctx, zzPath, zzDir, zzName, w.fp(), &zzWatcher{w}, w.callback, opts) })
+	initial := w.fp() // watchWithOptions fingerprints the file before it starts the loop
+	zz.Go(func() { runWatchLoop(ctx, zzPath, zzDir, zzName, initial, &zzWatcher{w}, w.callback, opts) })
 
-	steps := 2
+	steps := 3
 	if zz.Thorough() {
-		steps = 3
+		steps = 4
 	}
 	for i := 0; i < steps; i++ {
 		switch zz.Choose(6) {
@@ -179,8 +180,9 @@ func VerifMutant_Reload() {
 	w.install()
 	w.evaluated = w.fp()
 	ctx, cancel := context.WithCancel(context.Background())
+	initial := w.fp()
 	zz.Go(func() {
-		runWatchLoop(ctx, zzPath, zzDir, zzName, w.fp(), &zzWatcher{w}, w.callback, watchOptions{reconcileInterval: time.Second})
+		runWatchLoop(ctx, zzPath, zzDir, zzName, initial, &zzWatcher{w}, w.callback, watchOptions{reconcileInterval: time.Second})
 	})
 	w.file = 2
 	w.events <- fsnotify.Event{Name: zzPath, Op: fsnotify.Write}
